@@ -41,6 +41,10 @@ NSHARDS = {'quick': 8, 'thorough': 16}
 # ------------------------------------------------------------------ spec -> code
 
 def _gen_shard(arg):
+    return dc.safe(_gen_shard0, arg)
+
+
+def _gen_shard0(arg):
     tier, shard, nshards = arg
     r = run_tlc('Gen_Datatypes', 'Gen_Datatypes.cfg', workers=1, timeout=1100,
                 env={'DT_TIER': tier, 'DT_SHARD': shard, 'DT_NSHARDS': nshards,
@@ -83,6 +87,10 @@ def _gen_shard(arg):
 # ------------------------------------------------------------------ code -> spec
 
 def _rand_records(arg):
+    return dc.safe(_rand_records0, arg)
+
+
+def _rand_records0(arg):
     seed, n = arg
     rnd = random.Random(seed)
     recs = []
@@ -189,7 +197,8 @@ def report(chk, failing, idem):
         sig = signature(root, clause)
         chk.violation(sig, {'case': {k: root[k] for k in JUDGE_FIELDS}, 'type': dc.show_type(root['dt']),
                             'candidate': dc.show(root['c']), 'previous': dc.show(root['p']), 'path': root['path'],
-                            'observed': dc.show_outcome(root['out']), 'clause': clause,
+                            'observed': dc.show_outcome(root['out']), 'clause': clause, 'via': root.get('via', 'ctor'),
+                            'conc': repr(root['_conc']) if '_conc' in root else None,
                             'seen_in': {'type': dc.show_type(top['dt']), 'candidate': dc.show(top['c']),
                                         'via': top.get('via'), 'src': top.get('src', 'enumerated'), 'conc': top.get('conc')}})
     for r in idem:
@@ -252,15 +261,26 @@ def run(chk):
 
 
 def replay(chk, rep):
+    import math
     d = rep['detail']
     case = d['case']
     dt, c, p, path = case['dt'], case['c'], case['p'], case['path']
     obj = dc.build_type(dt)
+    conc = None
+    if d.get('conc'):      # the very concrete value of a random case
+        try:
+            conc = eval(d['conc'], {'__builtins__': {}}, {'nan': math.nan, 'inf': math.inf})   # noqa: literal from our own replay file
+        except Exception:   # noqa
+            conc = None
     print('type     :', dc.show_type(dt), '->', repr(obj))
-    print('candidate:', dc.show(c), '->', repr(dc.concrete(c, dt, obj)), ' previous:', dc.show(p), ' path:', path)
+    print('candidate:', dc.show(c), '->', repr(dc.concrete(c, dt, obj) if conc is None else conc),
+          ' previous:', dc.show(p), ' path:', path)
+    out = None
     for via, o in (('ctor', obj), ('rebuilt', dc.rebuild_type(obj))):
-        out, raw = dc.run_case(o, dt, c, p, path)
-        print(f'observed ({via}):', dc.show_outcome(out), ' raw:', repr(raw))
+        o1, raw = dc.run_case(o, dt, c, p, path, conc)
+        print(f'observed ({via}):', dc.show_outcome(o1), ' raw:', repr(raw))
+        if via == d.get('via', 'ctor'):
+            out = o1
     v = judge(chk, [dict(case, kind='case', out=out)])[0]
     print('TLC verdict:', 'allowed' if v is None else 'violates clause ' + v)
     print('recorded   :', d.get('observed'), d.get('clause'), d.get('seen_in'))
